@@ -84,6 +84,17 @@ def world_to_real(w):
     return r
 
 
+def cyclic_vectors(n, pattern, offsets=None, stride=1):
+    """Size vectors for shapes with many files: the pattern repeated along the
+    file list, once per starting offset (so that every pattern value meets
+    every neighbour and lands in every position modulo the pattern)."""
+    m = len(pattern)
+    out = []
+    for k in (range(m) if offsets is None else offsets):
+        out.append([pattern[(k + stride * i) % m] for i in range(n)])
+    return out
+
+
 def size_groups(shape, alphabet):
     """Group descriptors: one per value of the first file's size."""
     n = world.nfiles(shape)
